@@ -52,6 +52,9 @@ def cases(tier, seed):
     # histories: the quiet run is not the first thing that happens to the device / mesh object
     for (m, dens, sm), prior in itertools.product(meshes[:3] if quick else meshes[:6], ("pinned_driven_solve", "driven_solver_alive", "quiet_twice", "screened_driven_solve")):
         out.append(dict(dev=m, dens=dens, smooth=sm, gamma=10.0, u=5.79, adaptive=True, dt_max=1e-2, screening=False, prior=prior))
+    # thermalisation first (two stages on one solver: the recorded stage must start and stay in the uniform state)
+    for (m, dens, sm), ad in itertools.product(meshes[:3] if quick else meshes, (False, True)):
+        out.append(dict(dev=m, dens=dens, smooth=sm, gamma=10.0, u=5.79, adaptive=ad, dt_max=1e-2, screening=False, thermal=True))
     scr_meshes = meshes[:2] if quick else meshes
     scr_gu = GU[:2] if quick else GU
     for (m, dens, sm), (g, u) in itertools.product(scr_meshes, scr_gu):
@@ -89,7 +92,7 @@ def run_case(case):
     window = 3
     opts = tdgl.SolverOptions(
         solve_time=5.0, dt_init=(1e-3 if ad else dtm), dt_max=dtm, adaptive=ad, adaptive_window=window, save_every=20,
-        output_file="out.h5", terminal_psi=None, include_screening=case["screening"], progress_interval=10**9,
+        output_file="out.h5", terminal_psi=None, include_screening=case["screening"], progress_interval=10**9, skip_time=(1.0 if case.get("thermal") else 0.0),
     )
     rm = RawMesh.from_mesh(dev.mesh)
     lam = float(np.abs(np.linalg.eigvals(rm.laplacian_dense())).max())
